@@ -97,7 +97,8 @@ package io
 //@   simplify entry-ids
 //@   ndmodel interface
 //@   requires ghost.hdf5lock == 0
-//@   assigns ghost.hdf5lock
+//@   assigns ghost.hdf5lock, ghost.hdf5created
+//@   ensures [C08.create-writes-no-data] ghost.hdf5datawrites == old(ghost.hdf5datawrites)
 //@   ensures [C08.lock-released] ghost.hdf5lock == 0
 
 //@ func (H5Ref{T}).WriteSlice(h, data, loc) returns (err)
@@ -161,12 +162,14 @@ package io
 //@ func openOrCreateDataset(f, path, shape, exampleValue, compress) returns (ds, err)
 //@   simplify entry-ids
 //@   requires [C08.lock-precondition] ghost.hdf5lock == 2
-//@   assigns nothing
+//@   assigns ghost.hdf5created
+//@   ensures [C08.open-or-create-writes-no-data] ghost.hdf5datawrites == old(ghost.hdf5datawrites)
 
 //@ func createDataset(g, path, shape, exampleValue, compress) returns (ds, err)
 //@   simplify entry-ids
 //@   requires [C08.lock-precondition] ghost.hdf5lock == 2
-//@   assigns nothing
+//@   assigns ghost.hdf5created
+//@   ensures [C08.create-dataset-writes-no-data] ghost.hdf5datawrites == old(ghost.hdf5datawrites)
 //@   callsite CreateSimpleDataspace [C08.create-shape] len(arg0) == len(shape) && forall(i, 0, len(shape), arg0[i] == shape[i])
 
 //@ func findInSlice(strings, target) returns (r)
